@@ -1,11 +1,321 @@
 import StorageModel.Driver.Common
+import StorageModel.C09.Universe
 /- model driver for C09: `run spec` reads case lines on stdin and prints one output line per case
-   (spec = false: the engine model's output; spec = true: the spec's verdict). -/
-namespace StorageModel.Driver.C09
-open StorageModel.Driver
+   (spec = false: the engine model's output for the case's state; spec = true: the property's
+   verdict on the *implementation's* observations, which the check appends after " @O ").
 
-def step (_line : String) : String := "not-implemented"
-def specStep (_line : String) : String := "not-implemented"
+   Case line:    <mode> @H <history> @C <corruptions> @S <state tokens> [@O <implementation output>]
+   Output line:  R1 <reports> | <ro1> | R2 <reports> | D2 <state> | R3 <reports> | <ro3> | R4 <reports> | <same4>
+   (formats: harness/c09.go) -/
+namespace StorageModel.Driver.C09
+open StorageModel StorageModel.Driver StorageModel.C09
+
+/-! ### parsing -/
+
+def optWire (t : String) : Option FVal :=
+  if t = "~" then some .nil else (Bytes.ofHex t).map .str
+
+def parseList (t : String) : Option (List Bytes) :=
+  if t = "" then some [] else (t.splitOn ",").mapM Bytes.ofHex
+
+def parseSet (t : String) : Option (Option (List Bytes)) :=
+  if t = "~" then some none
+  else if t.startsWith "=" then (parseList (t.drop 1).toString).map some
+  else none
+
+structure PSt where
+  has : List (Name × Id × Name) := []
+  ents : List (Name × List EntD) := []
+  uniq : List ((Name × Name) × List (Bytes × Id)) := []
+  setx : List ((Name × Name) × List (Bytes × SVal)) := []
+
+def addEnt (l : List (Name × List EntD)) (st : Name) (p : EntD) : List (Name × List EntD) :=
+  match l with
+  | [] => [(st, [p])]
+  | q :: t => if q.1 = st then (q.1, q.2 ++ [p]) :: t else q :: addEnt t st p
+
+def takePairs (n : Nat) (toks : List String) : Option (List (String × String) × List String) :=
+  match n, toks with
+  | 0, r => some ([], r)
+  | n + 1, a :: b :: r => (takePairs n r).map fun (ps, rest) => ((a, b) :: ps, rest)
+  | _, _ => none
+
+def splitIdx (idx : String) : Name × Name :=
+  match idx.splitOn "." with
+  | [a, b] => (a, b)
+  | _ => (idx, "")
+
+partial def parseState (toks : List String) (acc : PSt) : Option PSt :=
+  match toks with
+  | [] => some acc
+  | "E" :: st :: id :: rest => do
+    let idb ← Bytes.ofHex id
+    let (fs, rest) ← takePairs (scalarsOf st).length rest
+    let (ss, rest) ← takePairs (setsOf st).length rest
+    let fields ← fs.mapM fun (f, v) => (optWire v).map fun x => (f, x)
+    let sets ← ss.mapM fun (f, v) => (parseSet v).map fun x => (f, x)
+    let has := sets.filterMap fun (f, x) => if x.isSome then some (st, idb, f) else none
+    parseState rest { acc with ents := addEnt acc.ents st ⟨idb, fields, sets.map fun (f, x) => (f, x.getD [])⟩,
+                               has := acc.has ++ has }
+  | "U" :: idx :: n :: rest => do
+    let (ps, rest) ← takePairs n.toNat! rest
+    let ents ← ps.mapM fun (k, v) => do
+      let kb ← Bytes.ofHex k
+      let vb ← Bytes.ofHex v
+      pure (kb, vb)
+    parseState rest { acc with uniq := acc.uniq ++ [(splitIdx idx, ents)] }
+  | "X" :: idx :: n :: rest => do
+    let (ps, rest) ← takePairs n.toNat! rest
+    let ents ← ps.mapM fun (k, v) => do
+      let kb ← Bytes.ofHex k
+      if v = "!" then pure (kb, SVal.junk)
+      else if v.startsWith "=" then (parseList (v.drop 1).toString).map fun l => (kb, SVal.ids l)
+      else none
+    parseState rest { acc with setx := acc.setx ++ [(splitIdx idx, ents)] }
+  | _ => none
+
+def toSt (p : PSt) : St := (StD.mk p.ents p.uniq p.setx).toSt
+
+/-! ### rendering -/
+
+def joinSp (l : List String) : String := " ".intercalate l
+
+def renderSet : Option (List Bytes) → String
+  | none => "~"
+  | some l => "=" ++ ",".intercalate (l.map Bytes.toWire)
+
+def renderFVal : FVal → String
+  | .nil => "~"
+  | .str v => Bytes.toWire v
+
+/-- `has`: the nested list buckets that exist (store, id, field) -/
+def renderState (s : St) (has : List (Name × Id × Name)) : String :=
+  let es := storeOrder.flatMap fun st =>
+    (s.ents st).flatMap fun p =>
+      ["E", st, Bytes.toWire p.1]
+        ++ (scalarsOf st).flatMap (fun f => [f, renderFVal (p.2.fields f)])
+        ++ (setsOf st).flatMap (fun f => [f, renderSet (if has.contains (st, p.1, f) || !(p.2.sets f).isEmpty then some (p.2.sets f) else none)])
+  let us := uniqueIdxs.flatMap fun (st, f) =>
+    ["U", st ++ "." ++ f, toString (s.uniq st f).length]
+      ++ (s.uniq st f).flatMap fun kv => [Bytes.toWire kv.1, Bytes.toWire kv.2]
+  let xs := setIdxs.flatMap fun (st, f) =>
+    ["X", st ++ "." ++ f, toString (s.setx st f).length]
+      ++ (s.setx st f).flatMap fun kv =>
+        [Bytes.toWire kv.1, match kv.2 with
+          | .junk => "!"
+          | .ids l => "=" ++ ",".intercalate (l.map Bytes.toWire)]
+  joinSp (es ++ us ++ xs)
+
+def nilWire (b : Bytes) : String := if b.isEmpty then "~" else Bytes.toWire b
+
+def renderMsg : Msg → String × List String
+  | .uqDangling k id => ("uqDangling", [Bytes.toWire k, Bytes.toWire id])
+  | .uqStale k id a => ("uqStale", [Bytes.toWire k, Bytes.toWire id, Bytes.toWire a])
+  | .uqNull id => ("uqNull", [Bytes.toWire id])
+  | .uqMissing v id => ("uqMissing", [Bytes.toWire v, Bytes.toWire id])
+  | .uqDup v x id => ("uqDup", [Bytes.toWire v, Bytes.toWire x, Bytes.toWire id])
+  | .sxDangling k id => ("sxDangling", [Bytes.toWire k, Bytes.toWire id])
+  | .sxStale k id => ("sxStale", [Bytes.toWire k, Bytes.toWire id])
+  | .sxEmpty k => ("sxEmpty", [Bytes.toWire k])
+  | .sxJunk k => ("sxJunk", [Bytes.toWire k])
+  | .sxMissing v id => ("sxMissing", [Bytes.toWire v, Bytes.toWire id])
+  | .fkBackDangling t s => ("fkBackDangling", [Bytes.toWire t, Bytes.toWire s])
+  | .fkBackStale t s a => ("fkBackStale", [Bytes.toWire t, Bytes.toWire s, nilWire a])
+  | .fkNull id => ("fkNull", [Bytes.toWire id])
+  | .fkDangling id t => ("fkDangling", [Bytes.toWire id, Bytes.toWire t])
+  | .fkBackMissing id t => ("fkBackMissing", [Bytes.toWire id, Bytes.toWire t])
+  | .lkDangling id l => ("lkDangling", [Bytes.toWire id, Bytes.toWire l])
+  | .lkOneSided id l => ("lkOneSided", [Bytes.toWire id, Bytes.toWire l])
+  | .lkNoInverse => ("lkNoInverse", [])
+
+def isLink : Msg → Bool
+  | .lkDangling .. | .lkOneSided .. | .lkNoInverse => true
+  | _ => false
+
+def renderReport (r : Report) : String :=
+  let (c, args) := renderMsg r.msg
+  let idx := if isLink r.msg then r.store else r.store ++ "." ++ r.field
+  ":".intercalate ([c, idx] ++ args ++ [if r.fixed then "t" else "f"])
+
+def renderReports (l : List Report) : String :=
+  if l.isEmpty then "." else joinSp (l.map renderReport)
+
+/-! ### the model's answer -/
+
+def segment (line : String) (tag next : String) : Option String :=
+  match line.splitOn (" " ++ tag) with
+  | [_, rest] =>
+    some (if next = "" then rest else ((rest.splitOn (" " ++ next)).headD "")).trimAscii.toString
+  | _ => none
+
+def stateOf (line : String) : Option (St × List (Name × Id × Name)) := do
+  let seg ← segment line "@S" "@O"
+  let toks := (seg.splitOn " ").filter (· ≠ "")
+  (parseState toks {}).map fun p => (toSt p, p.has)
+
+/-- mode `tx1r` runs the stores in the opposite order (owners, then things) -/
+def schemaFor (line : String) : Schema :=
+  if line.startsWith "tx1r " then uniSchema.reverse else uniSchema
+
+def step (line : String) : String :=
+  match stateOf line with
+  | none => "bad-case"
+  | some (s0, h0) =>
+    let S := schemaFor line
+    let p1 := checkAll S false s0
+    let h1 := h0 ++ bucketsEnsured S s0 p1.2
+    let d0 := renderState s0 h0
+    let d1 := renderState p1.1 h1
+    let p2 := checkAll S true p1.1
+    let h2 := h1 ++ bucketsEnsured S p1.1 p2.2
+    let d2 := renderState p2.1 h2
+    let p3 := checkAll S false p2.1
+    let h3 := h2 ++ bucketsEnsured S p2.1 p3.2
+    let d3 := renderState p3.1 h3
+    let p4 := checkAll S true p3.1
+    let h4 := h3 ++ bucketsEnsured S p3.1 p4.2
+    let d4 := renderState p4.1 h4
+    " | ".intercalate
+      [ "R1 " ++ renderReports p1.2,
+        if d1 = d0 then "same" else "changed D " ++ d1,
+        "R2 " ++ renderReports p2.2,
+        "D2 " ++ d2,
+        "R3 " ++ renderReports p3.2,
+        if d3 = d2 then "same" else "changed D " ++ d3,
+        "R4 " ++ renderReports p4.2,
+        if d4 = d2 then "same" else "differs" ]
+
+/-! ### the property's verdict on the implementation's observations -/
+
+def linkFieldOf (st : Name) : Name :=
+  match uniSchema.find? (·.name = st) with
+  | some sd => (sd.links.headD ⟨st, "", "", ""⟩).f
+  | none => ""
+
+def unNil (t : String) : Option Bytes := if t = "~" then some [] else Bytes.ofHex t
+
+def parseReport (t : String) : Option Report := do
+  let parts := t.splitOn ":"
+  let cls ← parts[0]?
+  let idx ← parts[1]?
+  let fl ← parts.getLast?
+  let fixed ← if fl = "t" then some true else if fl = "f" then some false else none
+  let args ← ((parts.drop 2).dropLast).mapM unNil
+  let (st, f) := splitIdx idx
+  let mk (m : Msg) : Option Report :=
+    some ⟨st, if isLink m then linkFieldOf st else f, m, fixed⟩
+  match cls, args with
+  | "uqDangling", [k, id] => mk (.uqDangling k id)
+  | "uqStale", [k, id, a] => mk (.uqStale k id a)
+  | "uqNull", [id] => mk (.uqNull id)
+  | "uqMissing", [v, id] => mk (.uqMissing v id)
+  | "uqDup", [v, x, id] => mk (.uqDup v x id)
+  | "sxDangling", [k, id] => mk (.sxDangling k id)
+  | "sxStale", [k, id] => mk (.sxStale k id)
+  | "sxEmpty", [k] => mk (.sxEmpty k)
+  | "sxJunk", [k] => mk (.sxJunk k)
+  | "sxMissing", [v, id] => mk (.sxMissing v id)
+  | "fkBackDangling", [t, s] => mk (.fkBackDangling t s)
+  | "fkBackStale", [t, s, a] => mk (.fkBackStale t s a)
+  | "fkNull", [id] => mk (.fkNull id)
+  | "fkDangling", [id, t] => mk (.fkDangling id t)
+  | "fkBackMissing", [id, t] => mk (.fkBackMissing id t)
+  | "lkDangling", [id, l] => mk (.lkDangling id l)
+  | "lkOneSided", [id, l] => mk (.lkOneSided id l)
+  | "lkNoInverse", [] => mk .lkNoInverse
+  | _, _ => none
+
+def parseReports (seg : String) (tag : String) : Option (List Report) :=
+  if !seg.startsWith (tag ++ " ") then none
+  else
+    let body := (seg.drop (tag.length + 1)).toString
+    if body = "." then some []
+    else ((body.splitOn " ").filter (· ≠ "")).mapM parseReport
+
+def parseD (seg : String) (tag : String) : Option St :=
+  if !seg.startsWith (tag ++ " ") then none
+  else
+    let toks := (((seg.drop (tag.length + 1)).toString).splitOn " ").filter (· ≠ "")
+    (parseState toks {}).map toSt
+
+def renderDisc : Disc → String
+  | .uqExtra st f k id => s!"uqExtra:{st}.{f}:{Bytes.toWire k}:{Bytes.toWire id}"
+  | .uqMissing st f v id => s!"uqMissing:{st}.{f}:{Bytes.toWire v}:{Bytes.toWire id}"
+  | .sxExtra st f k id => s!"sxExtra:{st}.{f}:{Bytes.toWire k}:{Bytes.toWire id}"
+  | .sxMissing st f v id => s!"sxMissing:{st}.{f}:{Bytes.toWire v}:{Bytes.toWire id}"
+  | .sxEmptyKey st f k => s!"sxEmptyKey:{st}.{f}:{Bytes.toWire k}"
+  | .sxJunkKey st f k => s!"sxJunkKey:{st}.{f}:{Bytes.toWire k}"
+  | .fkBackExtra st f t x => s!"fkBackExtra:{st}.{f}:{Bytes.toWire t}:{Bytes.toWire x}"
+  | .fkBackMissing st f x t => s!"fkBackMissing:{st}.{f}:{Bytes.toWire x}:{Bytes.toWire t}"
+  | .fkDangling st f x t => s!"fkDangling:{st}.{f}:{Bytes.toWire x}:{Bytes.toWire t}"
+  | .null st f id => s!"null:{st}.{f}:{Bytes.toWire id}"
+  | .lkDangling st f id l => s!"lkDangling:{st}.{f}:{Bytes.toWire id}:{Bytes.toWire l}"
+  | .lkOneSided st f id l => s!"lkOneSided:{st}.{f}:{Bytes.toWire id}:{Bytes.toWire l}"
+  | .lkNoInverse st f => s!"lkNoInverse:{st}.{f}"
+
+/-- executable form of `Disc.conflict` -/
+def conflictB (S : Schema) (s : St) : Disc → Bool
+  | .uqMissing st f v id => (s.uniq st f).any fun kv => kv.1 = v ∧ kv.2 ≠ id
+  | .null _ _ _ => true
+  | .fkDangling st f _ _ => S.nonNullFk st f
+  | .lkNoInverse _ _ => true
+  | _ => false
+
+/-- is `(st, f)` a nullable foreign key -/
+def nullableFk (S : Schema) (st f : Name) : Bool :=
+  S.constraints.any fun c =>
+    match c with
+    | .fkIndex st' f' n _ _ => st' == st && f' == f && n
+    | .fkCons st' f' n _ => st' == st && f' == f && n
+    | _ => false
+
+/-- a fix run must not touch the entities themselves, except for nulling a dangling nullable fk -/
+def entitiesKept (s0 s2 : St) : Bool :=
+  storeOrder.all fun st =>
+    s0.ids st == s2.ids st &&
+    (s0.ents st).all fun p =>
+      match s2.ent st p.1 with
+      | none => false
+      | some e2 => (scalarsOf st).all fun f =>
+          decide (e2.fields f = p.2.fields f) ||
+            (nullableFk uniSchema st f && decide (e2.fields f = .nil))
+
+def specStep (line : String) : String :=
+  match stateOf line, segment line "@O" "" with
+  | some (s0, _), some obs =>
+    match obs.splitOn " | " with
+    | [r1s, ro1, r2s, d2s, r3s, ro3, r4s, s4] =>
+      match parseReports r1s "R1", parseReports r2s "R2", parseD d2s "D2", parseReports r3s "R3",
+          parseReports r4s "R4" with
+      | some r1, some r2, some d2, some r3, some _r4 =>
+        let inc := inconsistencies uniSchema s0
+        let inc2 := inconsistencies uniSchema d2
+        let unsound := r1.filter fun r => !inc.contains r.about
+        let unreported := inc.filter fun d => !(r1.any fun r => r.about = d)
+        let roBad := (if ro1 = "same" then [] else ["ro1"]) ++ (if ro3 = "same" then [] else ["ro3"])
+          ++ (if (r1 ++ r3).all (fun r => !r.fixed) then [] else ["fixed-flag"])
+        -- fix-run reports: about inconsistencies of the initial state; `fixed` only when the re-check no
+        -- longer reports it; not fixed only for genuine conflicts
+        let fixUnsound := r2.filter fun r => !inc.contains r.about
+        let flagBad := r2.filter fun r =>
+          (r.fixed && r3.any fun r' => r'.about = r.about) || (!r.fixed && !decide (Unfixable uniSchema r))
+        let left := r3.filter fun r => !decide (Unfixable uniSchema r)
+        let leftD := inc2.filter fun d => !conflictB uniSchema d2 d
+        let clause (name : String) (items : List String) : List String :=
+          if items.isEmpty then [] else [name ++ "[" ++ ";".intercalate items ++ "]"]
+        let fails : List String :=
+          clause "sound" (unsound.map renderReport)
+          ++ clause "complete" (unreported.map renderDisc)
+          ++ clause "readonly" roBad
+          ++ clause "fixsound" (fixUnsound.map renderReport)
+          ++ clause "flags" (flagBad.map renderReport)
+          ++ clause "converge" (left.map renderReport ++ leftD.map renderDisc)
+          ++ clause "entities" (if entitiesKept s0 d2 then [] else ["changed"])
+          ++ clause "idempotent" (if s4 = "same" then [] else ["differs"])
+        if fails.isEmpty then "ok" else "fail:" ++ ",".intercalate fails
+      | _, _, _, _, _ => "fail:observation-not-understood"
+    | _ => "fail:observation-not-understood"
+  | _, _ => "bad-case"
 
 def run (spec : Bool) : IO Unit := forEachLine (if spec then specStep else step)
 
